@@ -884,7 +884,8 @@ class StubsStringGenerator:
                 )
                 superclass_methods_text += f"\n{class_string}\n"
 
-        already_defined_names = already_defined_names.union(existing_names)
+        # In place, so that sibling private superclasses see the names too and nothing is emitted twice
+        already_defined_names.update(existing_names)
 
         for superclass_superclass in superclass_class.superclasses:
             name = superclass_superclass.split(".")[-1]
